@@ -18,6 +18,28 @@ CHECKS = {
    design="DESIGN.md §4 C11"),
 }
 
+CHECKS["C06"] = dict(
+   technique="Lean 4 proofs (partition/permutation theorems for all view counts and subset numbers), differential correspondence on the real symmetry/subset/schedule code",
+   text="Proof: the related-viewgram sets of the basic view/segment pairs partition all pairs, the processed sets of the subsets are duplicate-free and partition the data "
+        "(count = 1 for every (segment, view) and TOF loop multiplicity), the balance flag is true iff all subsets process equally many viewgrams, and both subset schedules "
+        "(fixed order with any start subset; randomised order for any random draws) are permutations of the subsets — all proved in Lean for every number of views, subsets and "
+        "segment range under the flag constraints the constructor establishes (also a theorem). Tie: the real DataSymmetriesForBins_PET_CartesianGrid, "
+        "detail::find_basic_vs_nums_in_subset, subsets_are_approximately_balanced and IterativeReconstruction::get_subset_num (rand() scripted) are run on generated geometries "
+        "and every answer is compared with the model; an oracle counts multiplicities on the implementation.",
+   note=TB + "rand() is a parameter; views are 0..V-1; only the PET_CartesianGrid symmetry class (the one the projectors use) is modelled.",
+   design="DESIGN.md §4 C06")
+CHECKS["C01"] = dict(
+   technique="Lean 4 proofs (interleaving round trips, ring-pair partition, bin/detector-pair exactness with mashing), differential correspondence + partition oracle on the real ProjDataInfo classes",
+   text="Proof: for every even number of detectors the view/tangential <-> detector-pair maps are mutual inverses up to the reported exchange; for every well-formed segment table "
+        "(decidable predicate WFb, evaluated per configuration and compared with the implementation's behaviour) ring pairs are partitioned over (segment, axial position); for every "
+        "view-mashing factor dividing N/2 and odd TOF mashing the pairs a bin reports are exactly the pairs assigned to it (sound, complete up to orientation, duplicate-free, reported count), "
+        "exchanging detectors negates the TOF index, and uncompressed bin->pair->bin is the identity. Tie: construct_proj_data_info geometries (generated + predefined scanners) are "
+        "enumerated on the real ProjDataInfoCylindricalNoArcCorr and every table entry / bin is compared with the model; a partition oracle runs on the implementation. "
+        "The segment table construction (ProjDataInfoCTI) is modelled and compared but its well-formedness is checked per configuration, not proved in general; one class of "
+        "configurations (outermost segment clipped to a single ring difference of odd parity) violates the ring-pair clause and is a listed known finding with a Lean negative witness.",
+   note=TB + "float computation of m_offset/ax_pos_num_offset replaced by exact integers; 32-bit overflow not modelled; Blocks/Generic geometries share the formulas but are not yet exercised by the harness.",
+   design="DESIGN.md §4 C01")
+
 NOT_YET = {}
 
 def main():
